@@ -9,6 +9,8 @@ import json, os, time, hashlib
 
 VERIF = os.path.dirname(os.path.dirname(os.path.abspath(__file__)))
 REPO = os.environ.get("SA_REPO", "/repo")
+# scratch runs against a copy of the tree (seeded-change regression, self-test) must not overwrite the committed evidence
+EVDIR = os.environ.get("SA_EVIDENCE_DIR") or os.path.join(VERIF, "evidence")
 
 
 class AnalysisError(Exception):
@@ -72,7 +74,7 @@ def finish(pid, tier, obs, floors, t0, extra=None, explanation="", assumptions=N
         print("INFO " + line)
     for o in listed:
         print(f"KNOWN-FINDING: property={pid} {o.rule} {o.construct} {o.detail} :: {o.msg[:220]}")
-    replay_dir = os.path.join(VERIF, "evidence", "replay")
+    replay_dir = os.path.join(EVDIR, "replay")
     os.makedirs(replay_dir, exist_ok=True)
     for fn in os.listdir(replay_dir):
         if fn.startswith(pid + "-"):
@@ -113,8 +115,8 @@ def finish(pid, tier, obs, floors, t0, extra=None, explanation="", assumptions=N
         "wall_s": round(time.time() - t0, 3),
         "violations": len(unlisted),
     }
-    os.makedirs(os.path.join(VERIF, "evidence"), exist_ok=True)
-    with open(os.path.join(VERIF, "evidence", f"{pid}.json"), "w") as fh:
+    os.makedirs(EVDIR, exist_ok=True)
+    with open(os.path.join(EVDIR, f"{pid}.json"), "w") as fh:
         json.dump(ev, fh, indent=1, default=str)
 
     print(f"[{pid}] tier={tier} obligations={len(obs)} discharged={len(obs)-len(failures)} "
